@@ -22,4 +22,4 @@ For each change k in {{1, 2}}:
  4. Save the change as /tmp/seed_{pid}/out/patch{{k}}.diff (`git -C {wt} diff > …`), and write /tmp/seed_{pid}/out/meta{{k}}.json with keys: "property" ("{pid}"), "summary" (one line), "what_it_needs_to_manifest" (the specific input/sequence/option), "files" (edited files), "suite_result_with_change" (the pytest tail line), "demo_clean_exit" and "demo_changed_exit".
  5. Restore the worktree (`git -C {wt} checkout -- .`).
 
-Python is /venv/bin/python (numpy 2.x; no scipy/networkx). No network. Keep it to roughly 45 minutes. Final message: a short plain-text summary of the two changes, what each needs to manifest, and the confirmation results.""")
+Python is /venv/bin/python (numpy 2.x; no scipy/networkx). Never use `git stash` (the stash is shared between worktrees and other people are working in sibling worktrees); use `git diff > file` and `git checkout -- .` instead. No network. Keep it to roughly 45 minutes. Final message: a short plain-text summary of the two changes, what each needs to manifest, and the confirmation results.""")
